@@ -10,7 +10,8 @@ CONSTANTS
   FixStats = TRUE
   AtomicAdd = TRUE
   TakeRegistry = TRUE
+  DrainLatchFirst = TRUE
   Det = FALSE
-INVARIANTS TypeOK NoStuckStop AfterStopAllReleased LimitRespected ConnStatsConserved GaugeNonNegative
+INVARIANTS TypeOK DrainClosesSocket NoStuckStop AfterStopAllReleased LimitRespected ConnStatsConserved GaugeNonNegative
 PROPERTIES StopReturns DrainReturns DrainKeepsEstablished DrainStopsAccepting UnderLimitServed
 CHECK_DEADLOCK FALSE
